@@ -238,6 +238,11 @@ Definition only_publisher (w : peer) (tr : list aevent) : Prop := Forall (fun p 
 Definition no_joins (tr : list aevent) : Prop := joins tr = [].
 Definition fresh_joins (tr : list aevent) : Prop := Forall (fun j => j.2 = None) (joins tr).
 
+(* joins the single-publisher theorems allow: fresh clients when the host publishes, none when a client does
+   (see C06_host_stale_after_join_refuted, join_during_download_refuted) *)
+Definition joins_ok (w : peer) (tr : list aevent) : Prop :=
+  if decide (w = host) then fresh_joins tr else no_joins tr.
+
 (* neither a publication nor a join *)
 Definition plain (e : aevent) : Prop :=
   match e with APublish _ _ | AJoin _ _ => False | _ => True end.
